@@ -60,6 +60,7 @@ var StrategyNames = [...]string{"random", "pct", "sticky", "starve", "lowest-id-
 // Config describes one simulated run.
 type Config struct {
 	Seed          uint64   // seed of the schedule PRNG (record mode) and of RandReader
+	RandSeed      uint64   // non-zero: seed of RandReader instead of Seed
 	Replay        []uint32 // non-nil: replay these choices instead of drawing them
 	Strategy      int      // one of Strat*; -1 draws one from Seed
 	PCTDepth      int      // 0: drawn from Seed (1..3)
@@ -115,21 +116,23 @@ type op struct {
 }
 
 type task struct {
-	id       int
-	name     string
-	wake     chan struct{}
-	pend     op
-	vc       vclock
-	abort    bool
-	started  bool
-	returned bool
-	finished bool
-	panicked bool
-	panicVal any
-	stack    string
-	lastRead unsafe.Pointer
-	prio     int
-	fn       func()
+	id        int
+	name      string
+	wake      chan struct{}
+	pend      op
+	vc        vclock
+	abort     bool
+	started   bool
+	returned  bool
+	finished  bool
+	panicked  bool
+	panicVal  any
+	stack     string
+	lastRead  unsafe.Pointer
+	prio      int
+	fn        func()
+	key       uint64
+	randReads int
 }
 
 // Sim is the state of the running simulation.
@@ -341,6 +344,14 @@ func (s *Sim) spawn(name string, f func(), parent *task) *task {
 	t := &task{id: len(s.tasks), name: name, wake: make(chan struct{}, 1), fn: f}
 	if name == "" {
 		t.name = fmt.Sprintf("go#%d", t.id)
+		t.key = uint64(t.id)
+	} else {
+		h := uint64(fnvOffset)
+		for i := 0; i < len(name); i++ {
+			h ^= uint64(name[i])
+			h *= fnvPrime
+		}
+		t.key = h
 	}
 	t.pend = op{kind: OpStart}
 	if parent != nil {
